@@ -8,10 +8,10 @@ cd "$(dirname "${BASH_SOURCE[0]}")"
 # property -> simulator package, evidence level, quick runs, quick budget s, thorough runs, thorough budget s
 table() {
   case "$1" in
-    C01) echo "qbftsim exploration 3000 240 60000 1800";;
-    C02) echo "qbftsim exploration 3000 240 60000 1800";;
-    C06) echo "qbftsim exploration 2000 240 40000 1800";;
-    C07) echo "qbftsim exploration 2000 240 40000 1800";;
+    C01) echo "qbftsim exploration 2400 200 60000 1800";;
+    C02) echo "qbftsim exploration 2400 200 60000 1800";;
+    C06) echo "qbftsim exploration 1200 200 40000 1800";;
+    C07) echo "qbftsim exploration 1200 170 40000 1800";;
     C14) echo "queuesim exploration 40000 120 1500000 1200";;
     *) return 1;;
   esac
